@@ -11,6 +11,8 @@ import (
 	"net"
 	"net/netip"
 	"strings"
+	"sync"
+	"time"
 
 	"github.com/irai/packet"
 	"verifharness/vh"
@@ -1005,6 +1007,35 @@ func runBuild(v jmap, rng *rand.Rand, r *result, sess *packet.Session) {
 	}
 }
 
+// runCase executes one exported case (build sequence, DHCP layout vector, alias case) with the values drawn from rng.
+func runCase(v jmap, rng *rand.Rand, r *result, sess *packet.Session) {
+	switch r.Part {
+	case "alias":
+		func() {
+			defer func() {
+				if x := recover(); x != nil {
+					r.add("prop", "C03:alias.panic", "%s panicked with aliased arguments: %v", r.Func, x)
+				}
+			}()
+			runAliasVec(v, rng, r)
+		}()
+	case "dhcp":
+		func() {
+			defer func() {
+				if x := recover(); x != nil {
+					r.add("prop", "C03:DHCP4.panic", "EncodeDHCP4 panicked: %v", x)
+				}
+			}()
+			runDhcpVec(v, rng, r)
+		}()
+	default:
+		runBuild(v, rng, r, sess)
+	}
+	if len(r.Findings) == 0 {
+		r.Frame, r.Flat = "", nil
+	}
+}
+
 func buildMode(vecs []jmap, out string, k int, seed int64) {
 	sk := newSink(out)
 	sess, _, err := vh.NewWireSession(vh.WireNICs["nicA"])
@@ -1018,34 +1049,54 @@ func buildMode(vecs []jmap, out string, k int, seed int64) {
 		for inst := 0; inst < k; inst++ {
 			s := seed*1000003 + int64(id)*131 + int64(inst)
 			r := &result{ID: id, Inst: inst, Seed: s, Part: jstr(v, "part")}
-			rng := rand.New(rand.NewSource(s))
-			if r.Part == "alias" {
-				func() {
-					defer func() {
-						if x := recover(); x != nil {
-							r.add("prop", "C03:alias.panic", "%s panicked with aliased arguments: %v", r.Func, x)
-						}
-					}()
-					runAliasVec(v, rng, r)
-				}()
-			} else if r.Part == "dhcp" {
-				func() {
-					defer func() {
-						if x := recover(); x != nil {
-							r.add("prop", "C03:DHCP4.panic", "EncodeDHCP4 panicked: %v", x)
-						}
-					}()
-					runDhcpVec(v, rng, r)
-				}()
-			} else {
-				runBuild(v, rng, r, sess)
-			}
-			if len(r.Findings) == 0 {
-				r.Frame, r.Flat = "", nil
-			}
+			runCase(v, rand.New(rand.NewSource(s)), r, sess)
 			sk.put(r)
 		}
 	}
 	go sess.Close()
 	sk.finish(nil)
+}
+
+// concurrentMode: "encoders are functions of their arguments and the destination buffer only" (spec/Wire.tla,
+// section "No shared state").  par goroutines execute the exported cases -- each with its own generator, its own
+// buffers and its own session -- in a tight loop for a bounded time; every result is decoded and compared with
+// the values THAT goroutine supplied, exactly as in the sequential stage.  A finding that the sequential stage
+// does not show is interference between concurrent encoder calls.
+func concurrentMode(vecs []jmap, out string, par int, dur time.Duration, seed int64) {
+	sk := newSink(out)
+	var mu sync.Mutex
+	var wg sync.WaitGroup
+	total := 0
+	deadline := time.Now().Add(dur)
+	for g := 0; g < par; g++ {
+		wg.Add(1)
+		go func(g int) {
+			defer wg.Done()
+			sess, _, err := vh.NewWireSession(vh.WireNICs["nicA"])
+			if err != nil {
+				panic(err)
+			}
+			defer func() { go sess.Close() }()
+			pick := rand.New(rand.NewSource(seed*7919 + int64(g)))
+			n := 0
+			for round := 0; time.Now().Before(deadline); round++ {
+				v := vecs[pick.Intn(len(vecs))]
+				s := seed*1000003 + int64(jint(v, "id"))*131 + int64(g)*1000033 + int64(round)
+				r := &result{ID: jint(v, "id"), Inst: g, Seed: s, Part: jstr(v, "part")}
+				runCase(v, rand.New(rand.NewSource(s)), r, sess)
+				n++
+				if len(r.Findings) > 0 {
+					mu.Lock()
+					sk.put(r)
+					mu.Unlock()
+				}
+			}
+			mu.Lock()
+			total += n
+			mu.Unlock()
+		}(g)
+	}
+	wg.Wait()
+	sk.cases = len(vecs)
+	sk.finish(jmap{"executions": total, "goroutines": par, "seconds": dur.Seconds()})
 }
